@@ -53,7 +53,10 @@ func mpCases() []copyCase {
 
 	cs = append(cs, copyCase{name: "multiparty.PublicKeyGenProtocol.ShallowCopy", envKind: "rlwe", kind: shallow, concurrent: true, configs: []string{"default"},
 		build: func(e *env, cfg string) interface{} { p := multiparty.NewPublicKeyGenProtocol(e.p); return &p },
-		copy:  func(e *env, o interface{}) interface{} { p := o.(*multiparty.PublicKeyGenProtocol).ShallowCopy(); return &p },
+		copy: func(e *env, o interface{}) interface{} {
+			p := o.(*multiparty.PublicKeyGenProtocol).ShallowCopy()
+			return &p
+		},
 		ops: []op{{"2-party CPK", func(e *env, o interface{}) []byte {
 			return try(func() []byte {
 				p0 := o.(*multiparty.PublicKeyGenProtocol)
@@ -76,7 +79,10 @@ func mpCases() []copyCase {
 
 	cs = append(cs, copyCase{name: "multiparty.GaloisKeyGenProtocol.ShallowCopy", envKind: "rlwe", kind: shallow, concurrent: true, configs: []string{"default"},
 		build: func(e *env, cfg string) interface{} { p := multiparty.NewGaloisKeyGenProtocol(e.p); return &p },
-		copy:  func(e *env, o interface{}) interface{} { p := o.(*multiparty.GaloisKeyGenProtocol).ShallowCopy(); return &p },
+		copy: func(e *env, o interface{}) interface{} {
+			p := o.(*multiparty.GaloisKeyGenProtocol).ShallowCopy()
+			return &p
+		},
 		ops: []op{{"2-party GKG + rotate", func(e *env, o interface{}) []byte {
 			return try(func() []byte {
 				p0 := o.(*multiparty.GaloisKeyGenProtocol)
@@ -151,7 +157,10 @@ func mpCases() []copyCase {
 
 	cs = append(cs, copyCase{name: "multiparty.EvaluationKeyGenProtocol.ShallowCopy", envKind: "rlwe", kind: shallow, concurrent: true, configs: []string{"default"},
 		build: func(e *env, cfg string) interface{} { p := multiparty.NewEvaluationKeyGenProtocol(e.p); return &p },
-		copy:  func(e *env, o interface{}) interface{} { p := o.(*multiparty.EvaluationKeyGenProtocol).ShallowCopy(); return &p },
+		copy: func(e *env, o interface{}) interface{} {
+			p := o.(*multiparty.EvaluationKeyGenProtocol).ShallowCopy()
+			return &p
+		},
 		ops: []op{{"2-party EVK + apply", func(e *env, o interface{}) []byte {
 			return try(func() []byte {
 				p0 := o.(*multiparty.EvaluationKeyGenProtocol)
@@ -191,7 +200,10 @@ func mpCases() []copyCase {
 			}
 			return &p
 		},
-		copy: func(e *env, o interface{}) interface{} { p := o.(*multiparty.KeySwitchProtocol).ShallowCopy(); return &p },
+		copy: func(e *env, o interface{}) interface{} {
+			p := o.(*multiparty.KeySwitchProtocol).ShallowCopy()
+			return &p
+		},
 		ops: []op{{"2-party decrypt (switch to zero key)", func(e *env, o interface{}) []byte {
 			return try(func() []byte {
 				p0 := o.(*multiparty.KeySwitchProtocol)
@@ -219,7 +231,10 @@ func mpCases() []copyCase {
 			}
 			return &p
 		},
-		copy: func(e *env, o interface{}) interface{} { p := o.(*multiparty.PublicKeySwitchProtocol).ShallowCopy(); return &p },
+		copy: func(e *env, o interface{}) interface{} {
+			p := o.(*multiparty.PublicKeySwitchProtocol).ShallowCopy()
+			return &p
+		},
 		ops: []op{{"2-party PCKS to pk", func(e *env, o interface{}) []byte {
 			return try(func() []byte {
 				p0 := o.(*multiparty.PublicKeySwitchProtocol)
@@ -389,7 +404,10 @@ func mpCases() []copyCase {
 			}
 			return &p
 		},
-		copy: func(e *env, o interface{}) interface{} { p := o.(*mpbgv.MaskedTransformProtocol).ShallowCopy(); return &p },
+		copy: func(e *env, o interface{}) interface{} {
+			p := o.(*mpbgv.MaskedTransformProtocol).ShallowCopy()
+			return &p
+		},
 		ops: []op{{"2-party masked transform (x -> 2x+1)", func(e *env, o interface{}) []byte {
 			return try(func() []byte {
 				p0 := o.(*mpbgv.MaskedTransformProtocol)
@@ -484,6 +502,57 @@ func mpCases() []copyCase {
 				return ckDec(e, out)
 			})
 		}}}})
+	// full 2-party enc-to-share-to-enc round with party 0 using the given protocol objects (nil = fresh ones)
+	ckE2S2E := func(e *env, p0 *mpckks.EncToShareProtocol, q0 *mpckks.ShareToEncProtocol) []byte {
+		return try(func() []byte {
+			if p0 == nil {
+				p, _ := mpckks.NewEncToShareProtocol(e.ckkP, noise)
+				p0 = &p
+			}
+			if q0 == nil {
+				q, _ := mpckks.NewShareToEncProtocol(e.ckkP, noise)
+				q0 = &q
+			}
+			p1, _ := mpckks.NewEncToShareProtocol(e.ckkP, noise)
+			q1, _ := mpckks.NewShareToEncProtocol(e.ckkP, noise)
+			minLevel, logBound, ok := mpckks.GetMinimumLevelForRefresh(128, e.ckkP.DefaultScale(), 2, e.ckkP.Q())
+			if !ok {
+				return []byte("n/a: not enough levels")
+			}
+			ct := ckEnc(e, minLevel)
+			ls := e.ckkP.LogMaxSlots()
+			pub0, pub1 := p0.AllocateShare(minLevel), p1.AllocateShare(minLevel)
+			sec0, sec1 := mpckks.NewAdditiveShare(e.ckkP, ls), mpckks.NewAdditiveShare(e.ckkP, ls)
+			if err := p0.GenShare(e.sk, logBound, ct, &sec0, &pub0); err != nil {
+				return errBytes(err)
+			}
+			if err := p1.GenShare(e.sk2, logBound, ct, &sec1, &pub1); err != nil {
+				return errBytes(err)
+			}
+			if err := p0.AggregateShares(pub0, pub1, &pub0); err != nil {
+				return errBytes(err)
+			}
+			p0.GetShare(&sec0, pub0, ct, &sec0)
+			max := e.p.MaxLevel()
+			crp := q0.SampleCRP(max, crs("cks2e"))
+			c0, c1 := q0.AllocateShare(max), q1.AllocateShare(max)
+			if err := q0.GenShare(e.sk, crp, ct.MetaData, sec0, &c0); err != nil {
+				return errBytes(err)
+			}
+			if err := q1.GenShare(e.sk2, crp, ct.MetaData, sec1, &c1); err != nil {
+				return errBytes(err)
+			}
+			if err := q0.AggregateShares(c0, c1, &c0); err != nil {
+				return errBytes(err)
+			}
+			out := rlwe.NewCiphertext(e.p, 1, max)
+			*out.MetaData = *ct.MetaData
+			if err := q0.GetEncryption(c0, crp, out); err != nil {
+				return errBytes(err)
+			}
+			return ckDec(e, out)
+		})
+	}
 	cs = append(cs, copyCase{name: "mpckks.EncToShareProtocol.ShallowCopy", envKind: "ckks", kind: shallow, concurrent: true, configs: []string{"default"},
 		build: func(e *env, cfg string) interface{} {
 			p, err := mpckks.NewEncToShareProtocol(e.ckkP, noise)
@@ -494,48 +563,19 @@ func mpCases() []copyCase {
 		},
 		copy: func(e *env, o interface{}) interface{} { p := o.(*mpckks.EncToShareProtocol).ShallowCopy(); return &p },
 		ops: []op{{"2-party enc-to-share-to-enc", func(e *env, o interface{}) []byte {
-			return try(func() []byte {
-				p0 := o.(*mpckks.EncToShareProtocol)
-				p1, _ := mpckks.NewEncToShareProtocol(e.ckkP, noise)
-				q0, _ := mpckks.NewShareToEncProtocol(e.ckkP, noise)
-				q1, _ := mpckks.NewShareToEncProtocol(e.ckkP, noise)
-				minLevel, logBound, ok := mpckks.GetMinimumLevelForRefresh(128, e.ckkP.DefaultScale(), 2, e.ckkP.Q())
-				if !ok {
-					return []byte("n/a: not enough levels")
-				}
-				ct := ckEnc(e, minLevel)
-				ls := e.ckkP.LogMaxSlots()
-				pub0, pub1 := p0.AllocateShare(minLevel), p1.AllocateShare(minLevel)
-				sec0, sec1 := mpckks.NewAdditiveShare(e.ckkP, ls), mpckks.NewAdditiveShare(e.ckkP, ls)
-				if err := p0.GenShare(e.sk, logBound, ct, &sec0, &pub0); err != nil {
-					return errBytes(err)
-				}
-				if err := p1.GenShare(e.sk2, logBound, ct, &sec1, &pub1); err != nil {
-					return errBytes(err)
-				}
-				if err := p0.AggregateShares(pub0, pub1, &pub0); err != nil {
-					return errBytes(err)
-				}
-				p0.GetShare(&sec0, pub0, ct, &sec0)
-				max := e.p.MaxLevel()
-				crp := q0.SampleCRP(max, crs("cks2e"))
-				c0, c1 := q0.AllocateShare(max), q1.AllocateShare(max)
-				if err := q0.GenShare(e.sk, crp, ct.MetaData, sec0, &c0); err != nil {
-					return errBytes(err)
-				}
-				if err := q1.GenShare(e.sk2, crp, ct.MetaData, sec1, &c1); err != nil {
-					return errBytes(err)
-				}
-				if err := q0.AggregateShares(c0, c1, &c0); err != nil {
-					return errBytes(err)
-				}
-				out := rlwe.NewCiphertext(e.p, 1, max)
-				*out.MetaData = *ct.MetaData
-				if err := q0.GetEncryption(c0, crp, out); err != nil {
-					return errBytes(err)
-				}
-				return ckDec(e, out)
-			})
+			return ckE2S2E(e, o.(*mpckks.EncToShareProtocol), nil)
+		}}}})
+	cs = append(cs, copyCase{name: "mpckks.ShareToEncProtocol.ShallowCopy", envKind: "ckks", kind: shallow, concurrent: true, configs: []string{"default"},
+		build: func(e *env, cfg string) interface{} {
+			p, err := mpckks.NewShareToEncProtocol(e.ckkP, noise)
+			if err != nil {
+				panic(err)
+			}
+			return &p
+		},
+		copy: func(e *env, o interface{}) interface{} { p := o.(*mpckks.ShareToEncProtocol).ShallowCopy(); return &p },
+		ops: []op{{"2-party enc-to-share-to-enc", func(e *env, o interface{}) []byte {
+			return ckE2S2E(e, nil, o.(*mpckks.ShareToEncProtocol))
 		}}}})
 	cs = append(cs, copyCase{name: "mpckks.MaskedLinearTransformationProtocol.ShallowCopy", envKind: "ckks", kind: shallow, concurrent: true, configs: []string{"default"},
 		build: func(e *env, cfg string) interface{} {
